@@ -164,3 +164,21 @@ def wire_types(G, conv_props=(), conv_mode="prove"):
         key = "conv::" + impl.replace(" ", "_") + "::"
         specs[key + "from"] = {"props": list(conv_props), "mode": conv_mode, "contract": ""}
         G.impl(T, impl, ["from"], key, specs)
+
+
+# ---------------------------------------------------------------------------
+ZTYPES = "crates/dns-types/src/zones/types.rs"
+HTYPES = "crates/dns-types/src/hosts/types.rs"
+
+
+def zone_types(G, with_zones=True):
+    """Zones, Zone, ZoneResult, ZoneRecords, SOA, ZoneRecord (zones/types.rs) with R12 on the cloneable ones."""
+    Z = G.src(ZTYPES)
+    names = [("struct", "Zone"), ("enum", "ZoneResult"), ("struct", "ZoneRecords"), ("struct", "SOA"), ("struct", "ZoneRecord")]
+    if with_zones:
+        names.insert(0, ("struct", "Zones"))
+    for (k, n) in names:
+        pre = "#[verifier::external_derive]" if n in ("ZoneRecords", "Zone", "Zones") else ""
+        G.item(Z, k, n, drop_derive=("Clone",), pre_attrs=pre)
+        G.raw(UNIMPL_CLONE % {"T": n})
+        G.fired["R12"] = G.fired.get("R12", 0) + 1
